@@ -4,6 +4,7 @@ Every call builds *fresh* distribution / router / schedule / tracker objects, be
 copy all of them per Simulation (see DESIGN 2.2).
 """
 import copy
+import json
 import math
 from math import isinf
 
@@ -366,7 +367,15 @@ def build(spec, log=False, baulk_log=False):
     classes = list(reversed(classes))     # per-class dictionaries are inserted in reverse name order (any order is valid input)
     kw["arrival_distributions"] = {c["name"]: [D(c["arrival"][i], ("arr", i + 1, c["name"])) for i in range(n)] for c in classes}
     kw["service_distributions"] = {c["name"]: [D(c["service"][i], ("srv", i + 1, c["name"])) for i in range(n)] for c in classes}
-    kw["number_of_servers"] = [make_servers(nd["servers"]) for nd in nodes]
+    servers_objs, made = [], {}
+    for nd in nodes:
+        key = json.dumps(nd["servers"], sort_keys=True)
+        if nd.get("same_schedule_object") and key in made:
+            servers_objs.append(made[key])          # the user wrote number_of_servers=[rota, rota]: one Schedule object at two nodes
+        else:
+            made[key] = make_servers(nd["servers"])
+            servers_objs.append(made[key])
+    kw["number_of_servers"] = servers_objs
     if n == 1 and all(c["routing"] == {"kind": "matrix", "rows": [[0.0]]} for c in classes) and spec.get("seed", 0) % 2 == 0:
         pass        # leave-after-service on a single node: half of the cases rely on create_network's default routing
     else:
